@@ -22,6 +22,24 @@ def peel_ok(v):
 PEEL = re.compile(r'(Try>?::branch|Result::map_err|Option::ok_or_else|Option::ok_or|Result::map|Option::map|Option::as_ref|Result::as_ref)$')
 
 
+def _is_downcast_payload(v):
+    """the value is (a reference to) what `downcast_responder(..)?` yielded itself - the stored answer closure when the responder box holds
+    it directly rather than inside a one-field struct"""
+    v = strip(v)
+    for _ in range(8):
+        if v[0] == 'ref' and v[1][0][0] == 'ptr' and all(e == ('f', '0') or e[0] == 'dc' for e in v[1][1]):
+            v = strip(v[1][0][1])
+        elif v[0] == 'deref':
+            v = strip(v[1])
+        elif v[0] == 'field' and v[2] == '0' and strip(v[1])[0] == 'as' and strip(v[1])[2] in OKV:
+            v = strip(strip(v[1])[1])
+        elif v[0] == 'call' and PEEL_OK.search(v[1]) and v[2]:
+            v = strip(v[2][0])
+        else:
+            break
+    return is_call(v, r'DynCtx::downcast_responder$')
+
+
 def peel_result(v):
     v = strip(v)
     while v[0] == 'call' and PEEL.search(v[1]) and v[2]:
@@ -309,7 +327,8 @@ def eval_table(chk, F, rule, cfg):
                     lab += '[continuation not a literal variant on this path: %s]' % show(c)[:60]
                 elif c[3] == 'Answer':
                     a = strip(c[4][0][1])
-                    ok = is_call(a, r'AnswerClosure<F> as core::clone::Clone>::clone$') and field_path(a[2][0])[1][-1:] == ['answer_closure'] and \
+                    ok = is_call(a, r'AnswerClosure<F> as core::clone::Clone>::clone$') and \
+                        (field_path(a[2][0])[1][-1:] == ['answer_closure'] or _is_downcast_payload(a[2][0])) and \
                         mentions(a, lambda x: is_call(x, r'DynCtx::downcast_responder$'))
                     lab += '' if ok else '[answer closure is not the stored one: %s]' % show(a)
             else:
